@@ -32,7 +32,7 @@ import time
 from pathlib import Path
 
 PROP = "C16"
-MODULES = ["XpmVerif.Properties.C16"]
+MODULES = ["XpmVerif.Properties.C16", "XpmVerif.Properties.C16Src", "XpmVerif.Properties.C16Fine"]
 XPNAME = "e"
 OTHER = "other"
 BLOCK_WINDOW = 0.35  # seconds a contender is watched before it is called "blocked"
@@ -1133,7 +1133,15 @@ def _common():
 
 
 def prove(ctx):
-    _common().check_proofs(ctx, MODULES)
+    """the statement sequences of __enter__ / __exit__ / the link step are regenerated from the tree under test
+    (Generated/XpIndexSrc.lean); C16Src = the source obligations on them, C16Fine = the theorems of the model that runs them"""
+    from ..translate import xpindexsrc
+
+    common = _common()
+    msg = xpindexsrc.generate(common.REPO, common.LEAN)
+    ctx.notes.append(f"translator(xpindexsrc): {msg[1]}")
+    ctx.count("translator", "xpindexsrc:" + ("translated" if msg[1] == "translated" else "fallback" if msg[0] else "failed"))
+    common.check_proofs(ctx, MODULES, translate_msgs=[msg])
 
 
 # ---------------------------------------------------------------- generator
@@ -1799,6 +1807,10 @@ def correspond(ctx):
         "fcntl/fasteners: mutual exclusion between processes and release on process death (exercised, not proved)",
         "local filesystem semantics of rename/unlink/symlink (atomic per call)",
     ]
+    if not os.environ.get("C16_NO_EFFECT_KILLS"):  # kill points derived from the generated effect sequences (c16x_effects.py)
+        from . import c16x_effects
+
+        c16x_effects.correspond_effects(ctx)
     n = ctx.scale(150, 2000)
     ncli = ctx.scale(2, 46)
     # the histories through the command line come first: they take seconds each and go to different workers
